@@ -107,6 +107,8 @@ type c13Loop struct {
 	trLen   int
 	depth   int // number of enclosing loop iterations
 	touched map[int]bool
+	stored  map[c13HeapSlot]bool // fields of fresh objects the body writes
+	hvars   map[c13HeapSlot]bool // ... that are carried like variables
 	fnName  string
 }
 
@@ -242,6 +244,9 @@ func (x *c13Terms) deref(a *c13Term) *c13Term {
 }
 
 func (x *c13Terms) index(a, i *c13Term) *c13Term {
+	if v := x.mapLookup(a, i); v != nil {
+		return v
+	}
 	if a.op == c13OpLit && a.keys == nil && i.op == c13OpConst && i.cv.Kind() == constant.Int {
 		if n, ok := constant.Int64Val(i.cv); ok && n >= 0 && int(n) < len(a.args) {
 			return a.args[n]
